@@ -417,13 +417,13 @@ fn follow_up<E: Elem + Clone>(t: &mut TooDee<E>, tag: &str) -> Verdict {
 /// Conditions (1)-(3) of the C11/C12 oracle on the state right after the fault / leak.
 fn validate_state<E: Elem>(t: &TooDee<E>, allowed: &HashSet<u64>, tag: &str, what: &str) -> Verdict {
     shape_invariant(t, what).map_err(|f| Failure { sig: format!("{}/{}", tag, f.sig), msg: f.msg })?;
-    if E::TRACKED {
+    if E::TRACKED || E::UNIQUE {
         let mut seen = HashSet::new();
         for e in t.data() {
             let id = e.id();
-            ensure!(elem::is_live(id), format!("{}/reachable-but-dropped", tag), "{}: element {} is reachable through the array but was dropped", what, id);
+            ensure!(!E::TRACKED || elem::is_live(id), format!("{}/reachable-but-dropped", tag), "{}: element {} is reachable through the array but was dropped", what, id);
             ensure!(seen.insert(id), format!("{}/duplicated", tag), "{}: element {} occurs twice in the array", what, id);
-            ensure!(allowed.contains(&id), format!("{}/foreign-element", tag), "{}: element {} was neither in the array before nor supplied to / created by the operation", what, id);
+            ensure!(!E::TRACKED || allowed.contains(&id), format!("{}/foreign-element", tag), "{}: element {} was neither in the array before nor supplied to / created by the operation", what, id);
         }
     }
     let dd = elem::double_drops();
@@ -801,9 +801,9 @@ fn run_leak<E: Elem + Clone>(k: &LeakCase, ctx: &mut Ctx) -> Verdict {
         allowed.extend(elem::live_ids());
     }
     validate_state(&t, &allowed, &tag, &what)?;
-    if E::TRACKED {
+    if E::TRACKED || E::UNIQUE {
         for e in held.iter() {
-            ensure!(elem::is_live(e.id()), format!("{}/yielded-item-dropped", tag), "{}: a handed-out element ({}) was dropped", what, e.id());
+            ensure!(!E::TRACKED || elem::is_live(e.id()), format!("{}/yielded-item-dropped", tag), "{}: a handed-out element ({}) was dropped", what, e.id());
             ensure!(!t.data().iter().any(|x| x.id() == e.id()), format!("{}/yielded-item-still-in-array", tag), "{}: element {} was handed out and is still in the array (would be dropped twice)", what, e.id());
         }
     }
@@ -838,11 +838,11 @@ impl Prop for C12 {
         "leak enumeration: every value with a destructor or borrow that the API returns (DrainRow, DrainCol, pop forms, Rows, RowsMut, Col, ColMut, Cells, CellsMut, TooDeeView, TooDeeViewMut, IntoIter) x shapes (0..=5)^2 x every index x every (front,back) consumption with front+back <= n, then mem::forget; random shapes up to 14x14. Oracle: C01 shape invariant, reachable ids live + pairwise distinct + subset of the original (or written by the harness), no double drop now, after the fixed follow-up, or at the final drop; handed-out items are not also still in the array. Non-trivial = drain of a non-last line leaked, or a drain leaked after partial consumption. Distinct = distinct case tuple."
     }
     fn bound(_tier: Tier) -> String {
-        "shapes (0..=5)^2, every line index, every (front,back) split, 13 leakable kinds, element types Tr and Bx (+Zs for drains)".into()
+        "shapes (0..=5)^2, every line index, every (front,back) split, 13 leakable kinds, element types Tr, Bx (heap-owning), Zs (zero-sized) and u32 (no drop glue: only duplication is observable)".into()
     }
     fn enumerate(_tier: Tier, emit: &mut dyn FnMut(LeakCase)) {
         use Leakable::*;
-        for elem in [ElemKind::Tr, ElemKind::Bx, ElemKind::Zs] {
+        for elem in [ElemKind::Tr, ElemKind::Bx, ElemKind::Zs, ElemKind::U32] {
             for cols in 0u8..=5 {
                 for rows in 0u8..=5 {
                     if (cols == 0) != (rows == 0) {
@@ -872,7 +872,7 @@ impl Prop for C12 {
     }
     fn strategy(_tier: Tier) -> BoxedStrategy<LeakCase> {
         use Leakable::*;
-        (proptest::sample::select(vec![ElemKind::Tr, ElemKind::Bx]), 0u8..=14, 0u8..=14, any::<bool>(), proptest::sample::select(vec![DrainRow, DrainRow, DrainCol, DrainCol, DrainCol, PopRow, PopCol, Rows, RowsMut, Col, ColMut, Cells, CellsMut, View, ViewMut, IntoIter]), 0u8..14, 0u8..16, 0u8..16)
+        (proptest::sample::select(vec![ElemKind::Tr, ElemKind::Bx, ElemKind::U32]), 0u8..=14, 0u8..=14, any::<bool>(), proptest::sample::select(vec![DrainRow, DrainRow, DrainCol, DrainCol, DrainCol, PopRow, PopCol, Rows, RowsMut, Col, ColMut, Cells, CellsMut, View, ViewMut, IntoIter]), 0u8..14, 0u8..16, 0u8..16)
             .prop_map(|(elem, cols, rows, exact_cap, what, at, front, back)| {
                 let (cols, rows) = if cols == 0 || rows == 0 { (0, 0) } else { (cols, rows) };
                 LeakCase { elem, cols, rows, exact_cap, what, at, front, back }
@@ -886,9 +886,6 @@ impl Prop for C12 {
             k.cols = 0;
             k.rows = 0;
         }
-        if k.elem == ElemKind::U32 {
-            k.elem = ElemKind::Tr;
-        }
         true
     }
     fn random_cases(tier: Tier) -> u64 {
@@ -896,7 +893,8 @@ impl Prop for C12 {
     }
     fn execute(k: &LeakCase, ctx: &mut Ctx) -> Verdict {
         match k.elem {
-            ElemKind::Tr | ElemKind::U32 => run_leak::<Tr>(k, ctx),
+            ElemKind::Tr => run_leak::<Tr>(k, ctx),
+            ElemKind::U32 => run_leak::<u32>(k, ctx),
             ElemKind::Bx => run_leak::<Bx>(k, ctx),
             ElemKind::Zs => run_leak::<Zs>(k, ctx),
         }
